@@ -14,7 +14,7 @@ static uint8_t *enc(uint8_t *b, unsigned long long v) { memset(b, 0, 16); for (s
 static unsigned long long dec(const uint8_t *b) { unsigned long long v = 0; for (size_t i = 0; i < L; i++) v |= (unsigned long long)b[i] << (8 * i); return v; }
 static void scribble(void) { memset(ebuf, 0xEE, 16); memset(ebuf2, 0xEE, 16); }
 static bool pred_even(const uint8_t *e) { return (dec(e) % 2) == 0; }
-static int cmp_sort(const void *a, const void *b) { unsigned long long x = dec(a), y = dec(b); return (x > y) - (x < y); }
+static int cmp_sort(const void *a, const void *b) { unsigned long long x = dec(a), y = dec(b); return (x > y) ? 5 : (x < y) ? -3 : 0; }   /* legal comparators need not return -1/0/1 */
 static char vlog[4096]; static size_t vlen;
 static void visit(uint8_t *e) { vlen += snprintf(vlog + vlen, sizeof vlog - vlen, "%s%llu", vlen ? " " : "", dec(e)); }
 
